@@ -1,0 +1,39 @@
+//go:build verif
+
+package rtmp
+
+// Verification hooks (build tag "verif" only): access to the unexported message
+// header fields and protocol settings. They call nothing but field reads/writes.
+
+func VerifNewMessage(cid uint32, typ MessageType, streamID uint32, timestamp uint64, payload []byte) *Message {
+	m := NewMessage()
+	m.betterCid = chunkID(cid)
+	m.MessageType = typ
+	m.streamID = streamID
+	m.Timestamp = timestamp
+	m.Payload = payload
+	return m
+}
+
+func VerifMessageFields(m *Message) (cid uint32, typ MessageType, streamID uint32, timestamp uint64, payloadLength uint32) {
+	return uint32(m.betterCid), m.MessageType, m.streamID, m.Timestamp, m.payloadLength
+}
+
+func VerifChunkSizes(v *Protocol) (in, out uint32) {
+	return v.input.opt.chunkSize, v.output.opt.chunkSize
+}
+
+func VerifSetChunkSizes(v *Protocol, in, out uint32) {
+	v.input.opt.chunkSize, v.output.opt.chunkSize = in, out
+}
+
+// VerifTransactions returns the outstanding request transaction ids (unordered).
+func VerifTransactions(v *Protocol) map[float64]string {
+	v.input.ltransactions.Lock()
+	defer v.input.ltransactions.Unlock()
+	r := map[float64]string{}
+	for k, n := range v.input.transactions {
+		r[float64(k)] = string(n)
+	}
+	return r
+}
